@@ -24,7 +24,8 @@
    fn 11 reparse    [VL table; VL rops] -> VL [ VL trees ... ]   (every tree handed out so far, after every call)
         table entry: [VN huge; VB text; VL [mnode] | VL []]   what the parser reads from the text (VL []: rejected)
         rop: [VN 0; VN huge; VB text] to_ele(text, huge_tree) | [VN 1; VN tree; hop] a helper on an element of that tree
-             [VN 2; VN tree; mnode] the caller's own edit of that tree: the tree afterwards *)
+             [VN 2; VN tree; mnode] the caller's own edit of that tree: the tree afterwards
+             [VN 3; VN huge; VB text] a parsing helper that raised without the parser refusing the octets (encode / requirement) *)
 From NC Require Import Model.Base Model.XTree Model.XmlHelpers Model.XmlHistory Model.XmlSession Model.XmlReparse Glue.XCodec.
 
 Definition dec_tags (v : val) : tagsarg :=
@@ -113,6 +114,7 @@ Definition dec_rop (v : val) : rop :=
   | VL [VN 0; VN h; VB s] => RParse (negb (N.eqb h 0)) s
   | VL [VN 1; VN k; o] => RHelper (N.to_nat k) (dec_hop o)
   | VL [VN 2; VN k; t] => RCaller (N.to_nat k) (dec_m t)
+  | VL [VN 3; VN h; VB s] => RRaised (negb (N.eqb h 0)) s
   | _ => RParse false []
   end.
 
